@@ -24,7 +24,8 @@ Ws == WordSize(Layers)
 Ncw == NumCodewords(Compact, Layers)
 MinCheck == Max2(3, ((Ncw * EcPct) + 99) \div 100)
 NdMax == Min2(Ncw - MinCheck, IF Compact = 1 THEN 64 ELSE 2048)       \* the mode message has 6 / 11 bits for the count
-MaxRaw == IF Mode = "mc" THEN 1000000 ELSE NdMax * (Ws - 1)            \* every codeword takes at least Ws-1 message bits
+\* a codeword takes Ws message bits, Ws-1 when a bit is stuffed: leave room for one stuffed bit in every fourth codeword
+MaxRaw == IF Mode = "mc" THEN 1000000 ELSE (NdMax * Ws) - Max2(NdMax \div 4, Ws)
 MinRaw == IF Mode = "mc" THEN 1000000 ELSE MaxRaw - Min2(MaxRaw \div 3, 60)
 
 Fits(s) == raw + SegLen(mode, s) <= MaxRaw
@@ -60,7 +61,7 @@ FaultSets ==
 Fault == /\ phase = "fault" /\ Len(faults) < NFaults /\ Cap >= 1
          /\ \E fs \in FaultSets : faults' = Append(faults, fs)
          /\ UNCHANGED <<mode, items, raw, pend, phase, nd>>
-EmitSym == /\ phase = "fault" /\ (Len(faults) >= NFaults \/ Cap < 1)
+EmitSym == /\ phase = "fault" /\ (Len(faults) >= NFaults \/ Cap < 1) /\ nd + 3 <= Ncw
            /\ \E s \in {Sym(Compact, Layers, items, TRUE)}, sp \in {Spiral(Compact, Layers)} :   \* (bound once: LET is re-evaluated per use in actions)
                  PrintT(<<"GEN", ToJson([c |-> Compact, layers |-> Layers, ws |-> s.ws, ncw |-> s.ncw, nd |-> s.nd,
                      items |-> items, text |-> s.text, hl |-> Chunks(s.hl), nhl |-> Len(s.hl), rows |-> s.rows,
